@@ -49,6 +49,7 @@ type runner struct {
 	topAtRead  int
 
 	g1, g2, g3 *cl.Gate
+	async      []*cl.Gate // handleInsufficientState goroutines parked at the insufficient:enter hook
 	subDone    chan struct{}
 	subID      uint32
 	conn       *cl.Conn
@@ -59,6 +60,63 @@ type worker struct {
 	gb      *cl.GateBroker
 	runners sync.Map // ch -> *runner
 	hist    int
+}
+
+// allRunners: ch -> *runner over all workers (the verif gate function is process-global)
+var allRunners sync.Map
+
+// asyncGate parks a spawned handleInsufficientState goroutine at its entry until the behaviour's AsyncEnd step
+// (or the end of the behaviour) releases it.
+func asyncGate(point, _ string, ch string) {
+	if point != "insufficient:enter" {
+		return
+	}
+	v, ok := allRunners.Load(ch)
+	if !ok {
+		return
+	}
+	r := v.(*runner)
+	g := cl.NewGate()
+	r.mu.Lock()
+	r.async = append(r.async, g)
+	r.mu.Unlock()
+	g.Arrive(60 * time.Second)
+}
+
+// waitAsync waits until at least n insufficient-state goroutines are parked.
+func (r *runner) waitAsync(n int, timeout time.Duration) bool {
+	deadline := time.Now().Add(timeout)
+	for {
+		r.mu.Lock()
+		k := len(r.async)
+		r.mu.Unlock()
+		if k >= n {
+			return true
+		}
+		if time.Now().After(deadline) {
+			return false
+		}
+		time.Sleep(time.Millisecond)
+	}
+}
+
+// releaseAsync lets the oldest parked insufficient-state goroutine run (all = every one of them).
+func (r *runner) releaseAsync(all bool) bool {
+	r.mu.Lock()
+	defer r.mu.Unlock()
+	if len(r.async) == 0 {
+		return false
+	}
+	if all {
+		for _, g := range r.async {
+			g.Release()
+		}
+		r.async = nil
+		return true
+	}
+	r.async[0].Release()
+	r.async = r.async[1:]
+	return true
 }
 
 func (w *worker) runner(ch string) *runner {
@@ -410,6 +468,9 @@ func (w *worker) run(bi int, beh []map[string]any, res *vh.Result) {
 	}
 	w.runners.Store(r.ch, r)
 	defer w.runners.Delete(r.ch)
+	allRunners.Store(r.ch, r)
+	defer allRunners.Delete(r.ch)
+	defer r.releaseAsync(true)
 	conn, err := w.env.NewConn("u", centrifuge.ProtocolTypeJSON)
 	if err != nil {
 		res.Drift("", "NewConn: "+err.Error(), nil)
@@ -497,6 +558,10 @@ func (w *worker) run(bi int, beh []map[string]any, res *vh.Result) {
 			if err := w.gb.Deliver(r.ch, &pub, sp, false, nil); err != nil {
 				drift("deliver: " + err.Error())
 			}
+			if diverged == "" {
+				// goroutines the model spawned in this step: wait until the real ones are parked (a missing one is judged at AsyncEnd)
+				r.waitAsync(vh.Int(st["pend"]), 500*time.Millisecond)
+			}
 		case "SubStart":
 			id := conn.NextID()
 			r.subID = id
@@ -556,8 +621,17 @@ func (w *worker) run(bi int, beh []map[string]any, res *vh.Result) {
 			nontrivial = true
 		case "AsyncEnd":
 			if diverged != "" {
+				r.releaseAsync(false)
 				time.Sleep(20 * time.Millisecond)
 				break
+			}
+			// the goroutine the model runs now is parked at the entry of handleInsufficientState (if the code spawned it)
+			r.waitAsync(1, 2*time.Second)
+			if r.releaseAsync(false) {
+				res.Count("async_released_from_gate", 1)
+				if vh.Int(beh[si-1]["pend"]) > 0 && vh.Str(vh.Map(beh[si-1]["step"])["act"]) != "Deliver" {
+					res.Count("async_delayed_past_other_steps", 1)
+				}
 			}
 			want := 0
 			for _, f := range modelOut(st) {
@@ -682,6 +756,8 @@ func replay(in json.RawMessage, res *vh.Result) error {
 		return err
 	}
 	const nw = 8
+	centrifuge.VerifSetGate(asyncGate)
+	defer centrifuge.VerifSetGate(nil)
 	var wg sync.WaitGroup
 	jobs := make(chan int)
 	for i := 0; i < nw; i++ {
